@@ -29,7 +29,7 @@ CfgOf(f) == IF f = "docstring" THEN [style |-> "rest", edd |-> TRUE, et |-> TRUE
 CommonTyps == {"int", "float", "str", "bool", "Opt_int", "Opt_float", "Opt_str", "Opt_bool", "Lit"}
 CommonParams == {p \in ParamsOver(CommonTyps, Defs \ {"code"}, {"plain"}) : p.def # "absent"}   \* every parameter has a default
 \* C08's domain is hostile on purpose: untyped entries, descriptions containing the type-hint trigger words
-TrigDocs == {"trig_number", "trig_whether", "trig_listof", "trig_or", "trig_default"}
+TrigDocs == {"trig_number", "trig_whether", "trig_listof", "trig_or", "trig_default", "doc_colon", "doc_paren", "doc_question", "multi"}
 FixParams == ParamsOver(Typs, Defs \ {"code"}, {"plain", "dot"}) \cup ParamsOver({"absent", "int", "str", "Dotted"}, {"absent", "None", "int_pos", "str"}, TrigDocs)
 Dom == IF Mode = "chain" THEN CommonParams ELSE FixParams
 SmallDom == IF Mode = "chain" THEN {p \in CommonParams : p.typ \in {"int", "Opt_str", "Lit"}}
